@@ -3,3 +3,4 @@ import Obl.Hop
 import Obl.Proto
 import Obl.Sub
 import Obl.Ids
+import Obl.Macat
